@@ -32,6 +32,7 @@ K_SPAN_PANIC = 18
 K_ALT_FIRST = 19
 K_WIDE_ASCII_WB = 20
 K_MATH_SIGNED = 21
+K_JUMP_ZERO_RANGE = 22
 
 # recorded finding 21 lives in conditions outside the Gallina dialect: its class predicate is on the rule text
 import re as _re
@@ -70,6 +71,8 @@ def rule_text(r):
 
 def harness_rules(case):
     """consecutive rules of one namespace form one source text; module imports in front of every text"""
+    if "raw_src" in case:          # acceptance-boundary cases carry their source text
+        return [{"ns": None, "src": case["raw_src"]}]
     out = []
     imports = "".join('import "%s"\n' % m for m in case.get("imports", []))
     for r in case["rules"]:
@@ -1018,6 +1021,84 @@ def add_math_boundary(rng, case):
     return case
 
 
+# ------------------------------------------------------------------ acceptance at the limits both engines document
+def gen_limits_case(rng):
+    """one small rule at (or one step beyond) a limit of the dialect that libyara and boreal share or that boreal
+    documents as defensive: what is compared is acceptance (accept_yara => accept_boreal) and, when both accept, the
+    verdicts and offsets.  Source text carried as is; judged without Coq (class predicates on kind / parameter)."""
+    k = rng.below(12)
+    mem = b"ab"
+    kind, param = None, None
+
+    def hx(body):
+        return "rule r { strings: $a = { %s } condition: $a }" % body
+
+    def rx(body):
+        return "rule r { strings: $a = /%s/ condition: $a }" % body
+    if k <= 2:
+        n = rng.choice([199, 200, 200, 200, 200, 201, 202])
+        form = rng.below(4)
+        j = "[%d]" % n if form == 0 else "[%d-%d]" % (rng.choice([0, 1, 150, n]), n) if form < 3 else "[%d-%d]" % (n, n)
+        src = hx(rng.choice(["AB ( CD %s EF | 01 ) 02", "( AB %s CD | 01 02 )", "AB ( 01 | ( CD %s EF | 03 ) ) 02"]) % j)
+        mem = bytes([0xab, 0xcd]) + bytes(n) + bytes([0xef, 0x02, 0xab, 0x01, 0x02])
+        kind, param = "alt_jump", n
+    elif k == 3:
+        j = rng.choice(["[199]", "[200]", "[201]", "[255]", "[256]", "[1000]", "[0-201]", "[5-3]", "[0]", "[1]", "[3-3]", "[200-]", "[-]"])
+        src = hx("AB CD %s EF 02" % j)
+        mem = bytes([0xab, 0xcd]) + bytes(201) + bytes([0xef, 0x02])
+        kind, param = "jump", j
+    elif k == 4:
+        src = hx(rng.choice(["61 [0-0] 62", "AB ( CD [0-0] EF | 01 ) 02"]))
+        kind, param = "jump_zero_range", 0
+    elif k == 5:
+        q = rng.choice(["{32766}", "{32767}", "{32768}", "{1,32767}", "{1,32768}", "{32767,}", "{32768,}", "{5,3}", "{,5}", "{,}", "{0,0}",
+                        "{0}", "{65535}"])
+        src = rx("xa%sb" % q)
+        mem = b"x" + b"a" * 20 + b"b"
+        kind, param = "regex_repeat", q
+    elif k == 6:
+        n = rng.choice([127, 128, 128, 129])
+        src = rng.choice(["rule %s { condition: true }" % ("r" * n), 'rule r { strings: $%s = "ab" condition: any of them }' % ("s" * n)])
+        kind, param = "identifier", n
+    elif k == 7:
+        m = rng.choice(["xor(0-255)", "xor(255)", "xor(256)", "xor(5-3)", "xor(0-256)", "xor(3-3)"])
+        src = 'rule r { strings: $a = "ab" %s condition: $a }' % m
+        kind, param = "xor_range", m
+    elif k == 8:
+        n = rng.choice([63, 64, 64, 65])
+        alpha = "ABCDEFGHIJKLMNOPQRSTUVWXYZabcdefghijklmnopqrstuvwxyz0123456789+/!!"[:n]
+        src = 'rule r { strings: $a = "abcd" base64("%s") condition: $a }' % alpha
+        mem = b"YWJjZA=="
+        kind, param = "base64_alphabet", n
+    elif k == 9:
+        n = rng.choice([3, 4, 4, 5])
+        body = "true"
+        for i in range(n, 0, -1):
+            body = "for any i%d in (1..2) : (%s)" % (i, body)
+        src = "rule r { condition: %s }" % body
+        kind, param = "loop_nesting", n
+    elif k == 10:
+        n = rng.choice([28, 29, 29, 30, 31])
+        src = rng.choice([rx("(" * n + "a" + ")" * n + "b"), hx("61 " + "( " * n + "62" + " )" * n)])
+        kind, param = "group_nesting", n
+    else:
+        c = rng.choice(["1KB == 1024", "9223372036854775807 > 0", "0x7fffffffffffffff > 0", "0x8000000000000000 > 0",
+                        "9223372036854775808 > 0", "0o777 == 511", "-9223372036854775807 - 1 < 0", "1MB == 1048576"])
+        src = "rule r { condition: %s }" % c
+        kind, param = "integer_literal", c
+    return {"raw_src": src, "inputs": [mem.hex()], "rules": [], "limits": {"kind": kind, "param": param}}
+
+
+def limits_class(case):
+    """documented deviation / recorded finding a limits case belongs to, from its kind and parameter"""
+    lk = case["limits"]
+    if lk["kind"] == "group_nesting" and lk["param"] >= 30:
+        return K_LIMITS            # boreal's defensive limit on nested groups (README): 30
+    if lk["kind"] == "jump_zero_range":
+        return K_JUMP_ZERO_RANGE
+    return 0
+
+
 def add_percent_rule(rng, case):
     """a rule with many strings and `P% of them`, P*n a multiple of 100 more often than not, a different number of
     matching strings in each input (two-way only: libyara's test is made in binary64)"""
@@ -1088,7 +1169,7 @@ class C07(Prop):
           K_GLOBAL_REFS: "C07-global-refs-ordinary", K_LIST_UNDEF: "C07-list-undefined-element",
           K_HIGH_BYTE_ORDER: "C07-string-order-high-bytes", K_UNDEF_QUANT: "C07-undefined-quantifier",
           K_ALT_FIRST: "C07-alt-glue", K_WIDE_ASCII_WB: "C07-wide-ascii-boundary",
-          K_MATH_SIGNED: "C07-math-string-signed-char"}
+          K_MATH_SIGNED: "C07-math-string-signed-char", K_JUMP_ZERO_RANGE: "C07-jump-zero-range"}
     # classes 17 (C07-empty-class, fixed 861b829) and 18 (C07-regex-span-panic, fixed c526a27) are no longer produced
     RULE = ("generated rule files of the shared dialect: 1-4 rules over 1-2 namespaces (global / private / plain, "
             "references to earlier rules and to global rules), 0-3 strings per rule drawn from the C01 text generator "
@@ -1135,6 +1216,8 @@ class C07(Prop):
             if mods and "math" in mods and r.chance(1, 6):
                 add_math_boundary(r.fork("mb"), c)
             out.append(json.loads(json.dumps(c, default=lambda b: list(b))))
+        for i in range(max(12, n // 16)):
+            out.append(gen_limits_case(rng.fork("lim%d" % i)))
         return out
 
     # ---------------------------------------------------------------- execution
@@ -1180,6 +1263,8 @@ class C07(Prop):
             ctx.count("harness_crash")
             return (False, False, 0)
         y, b = out["yara"], out["boreal"]
+        if case.get("limits"):
+            return self.limits_verdict(ctx, case, out)
         if "error" in y:
             ctx.count("yara_rejects")
             ctx.count("yara_rejects+boreal_%s" % ("rejects" if "error" in b else "accepts"))
@@ -1225,6 +1310,36 @@ class C07(Prop):
             return t2 if isinstance(t2, tuple) else t1
         return "C07_pair (%s) (%s)" % (t1, t2)
 
+    def limits_verdict(self, ctx, case, out):
+        y = out["yara"]
+        kind = case["limits"]["kind"]
+        if "error" in y:
+            ctx.count("limits[%s]=yara_rejects" % kind)
+            return (True, True, 0)
+        self.stats["programs"] += 1
+        k = limits_class(case)
+        views = []
+        for key in ("boreal", "boreal_mem"):
+            b = out.get(key)
+            if b is None:
+                continue
+            if "scans" not in b:
+                ctx.count("limits[%s]=boreal_rejects" % kind)
+                if k == K_LIMITS and "panic" not in b:
+                    return (True, True, K_LIMITS)
+                return (True, False, k if "panic" not in b else 0)
+            views.append(b)
+        yv = [sorted((r["name"], r["matched"], json.dumps([(s["name"], [m[0] for m in s["matches"]]) for s in r["strings"]]))
+                     for r in sc["rules"]) for sc in y["scans"]]
+        for b in views:
+            bv = [sorted((r["name"], r["matched"], json.dumps([(s["name"], [m[0] for m in s["matches"]]) for s in r["strings"]]))
+                         for r in sc["rules"]) for sc in b["scans"]]
+            if bv != yv:
+                ctx.count("limits[%s]=differ" % kind)
+                return (True, False, 0)
+        ctx.count("limits[%s]=agree" % kind)
+        return (True, True, 0)
+
     @staticmethod
     def canon(b):
         if not isinstance(b, dict) or "scans" not in b:
@@ -1261,6 +1376,8 @@ class C07(Prop):
                 verdicts.add(r["matched"])
                 if r["strings"]:
                     some_match = True
+        if case.get("limits"):
+            return json.dumps([case["raw_src"], case["inputs"]])
         if some_match and len(verdicts) == 2:
             return json.dumps([harness_rules(case), case["inputs"]])
         return None
